@@ -215,7 +215,7 @@ func genC07(r *rand.Rand, rg *c07Rig, id string, thorough bool) *c07Req {
 		q.Method = "GET"
 		q.Upgrade = choose(r, []string{"websocket", "Websocket", "websocket"})
 	case -3:
-		q.HostHdr = "[::1]:" + choose(r, []string{"8080", "443", "80"})
+		q.HostHdr = "[::1]" + choose(r, []string{":8080", ":443", ":80", "", ""})
 	default:
 		q.HostHdr = rg.routes[q.Route].Host
 		switch r.Intn(6) {
@@ -248,7 +248,7 @@ func genC07(r *rand.Rand, rg *c07Rig, id string, thorough bool) *c07Req {
 	if r.Intn(2) == 0 {
 		q.Headers = append(q.Headers, rawhttp.Header{Name: "User-Agent", Value: choose(r, []string{"verif/1.0", "curl/8.0", ""})})
 	}
-	forged := []string{"X-Forwarded-For", "x-forwarded-for", "X-Forwarded-Proto", "X-Forwarded-Port", "X-Forwarded-Host", "Forwarded", "X-Real-Ip", "X-REAL-IP", "X-Client-Ip", "x-client-ip", "X-Custom", "X-Tls", "x-tls", "X-Forwarded-Prefix"}
+	forged := []string{"X-Forwarded-For", "x-forwarded-for", "X-Forwarded-Proto", "X-Forwarded-Port", "X-Forwarded-Host", "Forwarded", "X-Real-Ip", "X-REAL-IP", "X-Client-Ip", "x-client-ip", "X-Custom", "x-custom", "X-Tls", "x-tls", "X-SSL", "x-ssl", "X-Ssl", "X-Forwarded-Ssl", "x-forwarded-SSL", "X-Client-Addr", "X-Forwarded-Prefix"}
 	for n := r.Intn(4); n > 0 && r.Intn(2) == 0; n-- {
 		name := choose(r, forged)
 		var val string
@@ -263,7 +263,7 @@ func genC07(r *rand.Rand, rg *c07Rig, id string, thorough bool) *c07Req {
 			val = "evil.example"
 		case "forwarded":
 			val = choose(r, []string{"for=6.6.6.6; proto=https", "for=6.6.6.6"})
-		case "x-tls", "x-forwarded-prefix":
+		case "x-tls", "x-forwarded-prefix", "x-ssl", "x-forwarded-ssl":
 			val = choose(r, []string{"on", "true", "fake"})
 		default:
 			val = choose(r, []string{"6.6.6.6", "1.1.1.1"})
@@ -387,10 +387,10 @@ func c07Wire(c *ctx, which string) {
 	}
 	cfgs := []c07HdrCfg{
 		{Name: "A", ClientIP: "X-Client-Ip", TLSHeader: "X-Tls", TLSValue: "on", LocalIP: "9.9.9.9", STSMaxAge: 31536000, STSSub: true, STSPre: true},
-		{Name: "C"},
+		{Name: "C", ClientIP: "x-custom", TLSHeader: "X-SSL", TLSValue: "1"}, // spellings that are not in canonical MIME header form
 	}
 	if c.thorough() {
-		cfgs = append(cfgs, c07HdrCfg{Name: "B", ClientIP: "x-custom", STSMaxAge: 600})
+		cfgs = append(cfgs, c07HdrCfg{Name: "B", STSMaxAge: 600}, c07HdrCfg{Name: "D", TLSHeader: "x-forwarded-SSL", TLSValue: "on", ClientIP: "X-CLIENT-ADDR"})
 	}
 	n := c.scale(c.pick(2500, 60000))
 	var wg sync.WaitGroup
@@ -740,8 +740,15 @@ func c07One(c *ctx, which string, rg *c07Rig, q *c07Req, unrouted *atomic.Int64)
 			if want == "" && len(sts) > 0 {
 				viol("c08", "hsts-on-plain-connection", fmt.Sprintf("Strict-Transport-Security %q on a %s connection (max-age %d)", sts, proto, rg.hc.STSMaxAge))
 			}
-			if want != "" && (len(sts) != 1 || sts[0] != want) {
+			// the statement only says "only on TLS connections": a TLS response without the header is counted, not
+			// reported (fabio loses it when the upstream sends a 1xx response first, because the reverse proxy clears
+			// the header map after an informational response)
+			if want != "" && len(sts) == 0 {
+				c.R.Count("tls_responses_without_hsts", 1)
+			} else if want != "" && (len(sts) != 1 || sts[0] != want) {
 				viol("c08", "hsts-wrong", fmt.Sprintf("Strict-Transport-Security %q, want %q", sts, want))
+			} else if want != "" {
+				c.R.Count("tls_responses_with_hsts", 1)
 			}
 		}
 		if c.R.WantSample() && forgedAny {
